@@ -177,7 +177,11 @@ def has_array_of_struct(prog):
     return any(inside(t, False) for _, fs in prog for t in fs)
 
 
-def direct_oracle(prog, obs):
+SRC_KIND = {"src-nested": "nested", "src-after-return": "after-return", "src-undef": "undef", "src-builtin-name": "builtin-name",
+            "src-cycle": "cycle", "src-self": "cycle", "src-wf": "nested", "src-dup": "dup"}
+
+
+def direct_oracle(prog, obs, cls=""):
     """None | (signature, text).  Independent of the Coq model."""
     names = [n for n, _ in prog]
     kind, offs = parse_obs(obs)
@@ -196,7 +200,13 @@ def direct_oracle(prog, obs):
         return (sig,
                 "the structs are laid out, but print_program (the only place that reports size and alignment) panics on them")
     if kind == "OTypeMismatch":
-        return ("lowered-field-type-mismatch", "a struct field declared with a struct type was lowered to a different AIR type")
+        return ("lowered-field-type-mismatch:" + SRC_KIND.get(cls, "other"),
+                "source path: a declared struct is missing from the AIR or a field declared with a struct type was lowered to another type (i64)")
+    if cls == "src-dup":
+        if kind == "OLaid":
+            return ("duplicate-struct-names-laid-out", "two struct declarations with the same name are laid out (only a warning): the printed size/align "
+                    "of an embedding struct comes from the first declaration, its field offsets from the other")
+        return None
     if len(set(names)) != len(names):
         return None                     # duplicate definitions: not a C translation unit; tie only
     defs = dict(prog)
@@ -405,8 +415,12 @@ def audit(cases):
     acc = collections.Counter()
     for q, o, comp, cls, detail in cases:
         kind = o.split()[0]
-        acc["outcome:" + kind + (":" + detail if detail else "")] += 1
+        dd = detail.split(":")[0] if cls.startswith("src-") and ":" in detail else ("" if cls.startswith("src-") else detail)
+        acc["outcome:" + kind + (":" + dd if dd else "")] += 1
         acc["class:%s->%s" % (cls, kind)] += 1
+        if cls.startswith("src-"):
+            acc["stream:" + cls] += 1
+            acc["opt-level:" + detail.split(":")[-1]] += 1
         if comp.startswith("T:"):
             t, _ = parse_ty(comp[2:], 0)
             ty_features(t, acc)
@@ -439,7 +453,7 @@ def audit(cases):
     return dict(sorted(acc.items()))
 
 
-REQUIRED = (["class:src-wf->OLaid", "class:src-self->ODiag", "class:src-cycle->ODiag", "outcome:OLaid", "outcome:ODiag:selfref", "outcome:ODiag:cycle", "outcome:OUnresolved", "outcome:OTooLarge",
+REQUIRED = (["stream:src-nested", "stream:src-after-return", "stream:src-undef", "stream:src-builtin-name", "stream:src-dup", "class:src-wf->OLaid", "class:src-self->ODiag", "class:src-cycle->ODiag", "outcome:OLaid", "outcome:ODiag:selfref", "outcome:ODiag:cycle", "outcome:OUnresolved", "outcome:OTooLarge",
              "outcome:ONeedsContext", "outcome:OSizeAlign", "type:ptr", "type:slice", "type:struct-by-value", "type:array",
              "array-of-struct", "ptr-to-struct", "array-len:0", "array-len:1", "array-len:2-16", "array-len:17-300",
              "array-len:>=2^29", "array-depth:2", "array-depth:3", "nesting-depth:2", "nesting-depth:3", "nesting-depth:4",
@@ -631,7 +645,7 @@ def run(ctx):
             if not q.startswith("QCompute"):
                 continue
             prog = parse_prog(comp)
-            d = direct_oracle(prog, o)
+            d = direct_oracle(prog, o, cls)
             if d:
                 oracle_fail += 1
                 if d[0] not in reported:
@@ -660,10 +674,10 @@ def run(ctx):
         # duplicate struct names are outside the property's domain (not a C translation unit) and the
         # outcome there depends on the processing order, which is not part of the contract: a
         # disagreement on such inputs is recorded, not reported
-        drift = [i for i in fails if cases[i][3] == "dup"]
+        drift = [i for i in fails if cases[i][3] in ("dup", "src-dup")]
         # a panic of the printer on a laid-out program is reported by the direct oracle with its input
         # (print-panics*), not a second time as a broken tie
-        fails = [i for i in fails if cases[i][3] != "dup" and cases[i][1] != "OPrintPanic"]
+        fails = [i for i in fails if cases[i][3] not in ("dup", "src-dup") and cases[i][1] not in ("OPrintPanic", "OTypeMismatch")]
         if drift:
             ctx.cov["model_drift_on_duplicate_names"] = ctx.cov.get("model_drift_on_duplicate_names", 0) + len(drift)
             ctx.notes.append(f"{prof}: model and implementation differ on {len(drift)} inputs with duplicate struct names "
